@@ -4,7 +4,8 @@ import ast
 from ..frontend import AnalysisError, src, walk_no_nested
 from ..symx import run_paths
 from ..lin import Form, Lin
-from ..pathcond import implied
+from ..pathcond import implied, rimplied
+import re
 
 MANIFEST = {
     'technique': 'def-use / linear-form analysis of Stream.mix_from paths (every inlet H and Q reach the H sink), quantity-kind flow rule (solved temperatures flow only into T), read-before-mutate ordering, sign of the Newton/secant residuals',
@@ -73,12 +74,25 @@ def mix_energy(ctx, d1, d2):
     ps, trunc = run_paths(f.node, decide=decide, call_hook=sum_hook, max_paths=3000)
     if trunc:
         raise AnalysisError('Stream.mix_from: path enumeration truncated')
+    # the list of mixed inlets: the local list that receives the non-empty stream inlets in the loop over `others`
+    L = None
+    for n in walk_no_nested(f.node):
+        if isinstance(n, ast.For) and src(n.iter) == f.params[1] and isinstance(n.target, ast.Name):
+            for x in ast.walk(n):
+                if isinstance(x, ast.Call) and isinstance(x.func, ast.Attribute) and x.func.attr == 'append' \
+                        and [src(a) for a in x.args] == [n.target.id] and isinstance(x.func.value, ast.Name):
+                    L = x.func.value.id
+    if L is None:
+        raise AnalysisError('Stream.mix_from: list of mixed inlets not found')
+    SUMH = re.compile(r'^SUM\[(\w+)\.H\|\1 in %s\]$' % re.escape(L))
+    MINP = re.compile(r'^MIN\[(\w+)\.P\|\1 in %s\]$' % re.escape(L))
+    MATS = re.compile(r'^\[(\w+)\._imol for \1 in %s\]$' % re.escape(L))
     seen = {}
     for p in ps:
         if p.raised:
             continue
-        n0 = implied(p.conds, lambda e: src(e) == 'N_streams == 0')
-        n1 = implied(p.conds, lambda e: src(e) == 'N_streams == 1')
+        n0 = rimplied(p, lambda t: t == '(len(%s) == 0)' % L)
+        n1 = rimplied(p, lambda t: t == '(len(%s) == 1)' % L)
         if n0:
             continue
         vle = implied(p.conds, lambda e: src(e) == 'vle')
@@ -97,7 +111,7 @@ def mix_energy(ctx, d1, d2):
                 sinks.append((e, e.extra['H']))
         res = None
         if n1:
-            cp = [e for e in p.events if e.kind == 'call' and e.target == 'self.copy_like' and e.value and e.value[0].pretty().startswith('streams[0]')]
+            cp = [e for e in p.events if e.kind == 'call' and e.target == 'self.copy_like' and e.value and e.value[0].pretty().startswith('%s[0]' % L)]
             qz = implied(p.conds, lambda e: src(e) == 'Q')
             if not cp:
                 res = ('no-copy', 'single non-empty inlet is not copied with copy_like (flows and thermal condition)')
@@ -113,11 +127,11 @@ def mix_energy(ctx, d1, d2):
             else:
                 e, v = sinks[-1]
                 hs = [a for a in v.atoms() if a.startswith('SUM[')]
-                if len(hs) != 1 or v.coeff(hs[0]) != 1 or not hs[0].startswith('SUM[i.H|i in streams]'):
+                if len(hs) != 1 or v.coeff(hs[0]) != 1 or not SUMH.match(hs[0]):
                     res = ('H-sum', 'the enthalpy assigned (%s) is not the sum of the H of every mixed inlet' % v.pretty())
                 elif v.coeff('Q') != 1:
                     res = ('Q-dropped', 'the enthalpy assigned (%s) does not contain the heat input Q with coefficient 1' % v.pretty())
-                elif not mats or not all(src(m.node.args[0]) == '[i._imol for i in streams]' for m in mats):
+                elif not mats or not all(MATS.match(src(m.node.args[0])) for m in mats):
                     res = ('material-list', 'the material sum does not range over the same filtered inlet list as the enthalpy sum')
                 elif p.events.index(mats[-1]) > p.events.index(e):
                     res = ('order', 'the enthalpy is assigned before the material is mixed')
@@ -139,14 +153,14 @@ def mix_energy(ctx, d1, d2):
     for p in ps:
         if p.raised:
             continue
-        n0 = implied(p.conds, lambda e: src(e) == 'N_streams == 0')
-        n1 = implied(p.conds, lambda e: src(e) == 'N_streams == 1')
+        n0 = rimplied(p, lambda t: t == '(len(%s) == 0)' % L)
+        n1 = rimplied(p, lambda t: t == '(len(%s) == 1)' % L)
         if n0 or n1:
             continue
         nP += 1
         st = [e for e in p.events if e.kind == 'store' and e.target == 'self.P']
         first_sink = [e for e in p.events if (e.kind == 'store' and e.target == 'self.H') or (e.kind == 'call' and e.target == 'self.vle')]
-        if not st or st[0].value != Form.atom('MIN[i.P|i in streams]'):
+        if not st or not MINP.match(st[0].value.pretty()):
             badP = 'P is not set to min(i.P for i in streams)'
         elif first_sink and p.events.index(st[0]) > p.events.index(first_sink[0]):
             badP = 'P is stored after the enthalpy solve'
@@ -159,8 +173,7 @@ def mix_energy(ctx, d1, d2):
     for n in walk_no_nested(f.node):
         if isinstance(n, ast.For) and src(n.iter) == f.params[1]:
             body = ' '.join(ast.unparse(ast.Module(body=n.body, type_ignores=[])).split())
-            okf = 'if not %s.isempty(): streams.append(%s)' % (n.target.id, n.target.id) in body.replace('\n', ' ') \
-                or ('not %s.isempty()' % n.target.id in body and 'streams.append(%s)' % n.target.id in body)
+            okf = ('not %s.isempty()' % n.target.id in body and '%s.append(%s)' % (L, n.target.id) in body)
     if okf:
         d2.ok('Stream.mix_from', 'the mixed list holds the non-empty stream inlets', f)
     else:
